@@ -5073,7 +5073,9 @@ class Entity(object, metaclass=EntityMeta):
                                                          "and 'cascade_delete' option of %s is not set"
                                                          % (obj, attr.name, attr))
                         elif isinstance(reverse, Set):
-                            if attr not in obj._vals_: continue
+                            if attr not in obj._vals_:
+                                if not attr.lazy: continue
+                                attr.load(obj)  # a lazy reference: its collection on the other side must lose the object too
                             val = get_val(attr)
                             if val is None: continue
                             reverse.reverse_remove((val,), obj, undo_funcs)
